@@ -362,6 +362,12 @@ def judge(chk, cases, tag):
         for c in known:
             explained |= PREDICTS.get(c, set())
         new = [f for f in fails if f not in explained]
+        if new and all(f == 'template' for f in new) and lang not in ('typescript', 'python'):
+            # the text is lexically closed (the Gallina lexer accepts it) and every specific judgement passes, but lines lie outside the
+            # declaration TEMPLATES lib/extract.py knows for this language (no grammar or compiler for it is available here): either
+            # ill-formed in a way only a parser would see, or merely a layout the templates do not know - not a failing input
+            chk.unreadable(lang, dict(payload, failures=fails), why)
+            continue
         if new:
             chk.violation(f'{tag}-{lang}-{k}', dict(payload, failures=fails, why=why, known=known),
                           f'{lang} output is not well-formed: {", ".join(new)}: {"; ".join(why)[:600]}')
